@@ -56,12 +56,12 @@ ASSUMPTIONS = [
     "uses the wire and the endpoint's observations only",
 ]
 DECIDING = {
-    "invocations_judged": 3000, "terminal_yield": 800, "terminal_error": 800, "yield_payload_compared": 800,
-    "endpoint_args_compared": 3000, "details_compared": 800, "progress_sequences_compared": 300,
-    "interrupt_while-pending": 200, "interrupt_same-read": 100, "interrupt_before-invocation": 100,
-    "interrupt_after-completion": 100, "cancel_error_seen": 100, "pending_silent_checked": 30,
-    "limit_boundary_yield": 60, "length_prediction_exact": 60, "concurrent_cases": 300, "rid_reused": 20,
-    "oversized_cases": 100, "unserializable_cases": 100,
+    "invocations_judged": 20000, "terminal_yield": 8000, "terminal_error": 5000, "yield_payload_compared": 8000,
+    "endpoint_args_compared": 20000, "details_compared": 8000, "progress_sequences_compared": 2000,
+    "interrupt_while-pending": 1000, "interrupt_same-read": 500, "interrupt_before-invocation": 500,
+    "interrupt_after-completion": 500, "cancel_error_seen": 1000, "pending_silent_checked": 200,
+    "limit_boundary_yield": 300, "length_prediction_exact": 300, "concurrent_cases": 1500, "rid_reused": 300,
+    "oversized_cases": 1000, "unserializable_cases": 1000, "combos": 16, "families": 5,
 }
 
 COMBOS = [(t, s) for t in ("websocket", "rawsocket") for s in ("json", "msgpack", "cbor", "ubjson")]
